@@ -21,7 +21,8 @@ Environment hypotheses (`EnvStep`, `Env.WF` in `Proofs/RefLoopInv.lean`), all ex
   commit after every `Open`** (`session.commit` → `newManifest(r, nv)` adds every table of `nv` to
   `r.addedTables` again, and `setVersion` builds the delta from it): see `delta_once_needed`;
 * a table that left the version never comes back (`Env.WF.mono`).
-Not covered by the theorems (but by the model and the trace differential): abandoned version ids. -/
+Not covered by the theorems (but by the model and the trace differential): abandoned version ids, and the
+release of the last version at `Close` (which comes without a delta). -/
 namespace GoLevel.C07
 open GoLevel.RefLoop
 
@@ -32,11 +33,11 @@ inductive Reach : State → Env → List Nat → Prop
       Reach S G R → EnvStep G m G' → RefLoop.step S m = some (S', rm) → Reach S' G' (R ++ rm)
 
 theorem reach_inv {S : State} {G : Env} {R : List Nat} (h : Reach S G R) :
-    Inv S G ∧ S.released.lookup S.next = none := by
+    Inv S G ∧ S.released.lookup S.next = none ∧ Hist S G R := by
   induction h with
-  | init => exact ⟨inv_init, rfl⟩
+  | init => exact ⟨inv_init, rfl, hist_init⟩
   | @step S S' G G' R rm m _ hs hstep ih =>
-    obtain ⟨S1, rm1, h1, h2, _⟩ := handle_inv ih.1 hs
+    obtain ⟨S1, rm1, h1, h2, _, h2'⟩ := handle_inv ih.1 ih.2.2 hs
     simp only [RefLoop.step, h1] at hstep
     cases hp : processTasks S1 with
     | none => rw [hp] at hstep; cases hstep
@@ -44,12 +45,12 @@ theorem reach_inv {S : State} {G : Env} {R : List Nat} (h : Reach S G R) :
       obtain ⟨S2, rm2⟩ := r
       rw [hp] at hstep
       simp only [Option.some.injEq, Prod.mk.injEq] at hstep
-      obtain ⟨rfl, _⟩ := hstep
-      obtain ⟨S3, rm3, h4, h5, _⟩ := processTasks_inv h2
+      obtain ⟨rfl, rfl⟩ := hstep
+      obtain ⟨S3, rm3, h4, h5, _, h5'⟩ := processTasks_inv h2 h2'
       rw [hp] at h4
       simp only [Option.some.injEq, Prod.mk.injEq] at h4
-      obtain ⟨rfl, _⟩ := h4
-      exact ⟨h5, processTasks_settled h2 hp⟩
+      obtain ⟨rfl, rfl⟩ := h4
+      exact ⟨h5, processTasks_settled h2 h2' hp, by rw [← List.append_assoc]; exact h5'⟩
 
 /-- **no_premature_delete.**  Whatever message a well-behaved environment sends next, the loop does not panic,
 and every table it hands to `tOps.remove` while handling it belongs to no version that has been referenced and
@@ -59,7 +60,7 @@ theorem no_premature_delete {S : State} {G G' : Env} {R : List Nat} {m : Msg}
     ∃ S' rm, RefLoop.step S m = some (S', rm) ∧
       (∀ f ∈ rm, ∀ k, k < G'.n → k ∉ G'.rel → f ∉ G'.F k) ∧
       (∀ f ∈ rm, f ∉ G'.F (G'.n - 1)) := by
-  obtain ⟨S', rm, h1, h2, h3⟩ := step_inv (reach_inv h).1 hs
+  obtain ⟨S', rm, h1, h2, h3, _⟩ := step_inv (reach_inv h).1 (reach_inv h).2.2 hs
   refine ⟨S', rm, h1, h3, fun f hf => ?_⟩
   by_cases hn : G'.n = 0
   · rw [F_ge (by omega)]; simp
@@ -67,28 +68,39 @@ theorem no_premature_delete {S : State} {G G' : Env} {R : List Nat} {m : Msg}
     have := h2.wf.rel_lt _ hrel
     rcases h2.wf.nd_lt with h4 | h4 <;> omega
 
-/-- **eventual_delete** (first half).  When every delta has arrived, every version but the current one has been
-released and all messages have been processed, the counters cover exactly the tables of the current version:
-`dom fileRef = files(current)`. -/
+/-- No table is ever removed twice. -/
+theorem removed_at_most_once {S : State} {G : Env} {R : List Nat} (h : Reach S G R) : R.Nodup := by
+  refine List.nodup_iff_count.mpr (fun f => ?_)
+  have hH := (reach_inv h).2.2 f
+  by_cases hc : Acc S G f ∧ S.fileRef.count f = 0
+  · rw [hH.1 hc]; exact Nat.le_refl _
+  · rw [hH.2 hc]; exact Nat.zero_le _
+
+/-- **eventual_delete.**  When every delta has arrived, every version but the current one has been released and
+all messages have been processed: the counters cover exactly the tables of the current version
+(`dom fileRef = files(current)`), and every table that ever belonged to a version and is not in the current one
+has been removed exactly once. -/
 theorem eventual_delete {S : State} {G : Env} {R : List Nat} (h : Reach S G R)
     (hn : 0 < G.n) (hnd : G.nd + 1 = G.n) (hrel : ∀ k, k + 1 < G.n → k ∈ G.rel) :
-    ∀ f, f ∈ S.fileRef ↔ f ∈ G.F (G.n - 1) :=
-  quiescent_fileRef (reach_inv h).1 (reach_inv h).2 hn hnd hrel
-
-/-- The full statement of the second half: in such a quiescent state every table that ever belonged to a
-version and is not in the current one has been removed exactly once.  Not proved in Lean (the invariant would
-additionally track the removal history); the Go check evaluates it on the implementation: after settling with
-nothing pinned, storage holds exactly the live files, and `f.remove` events are counted per table. -/
-def eventual_delete_full : Prop :=
-  ∀ {S : State} {G : Env} {R : List Nat}, Reach S G R → 0 < G.n → G.nd + 1 = G.n →
-    (∀ k, k + 1 < G.n → k ∈ G.rel) →
-    ∀ f k, k < G.n → f ∈ G.F k → f ∉ G.F (G.n - 1) → R.count f = 1
-
-/-- What is proved of it besides `eventual_delete`: nothing that the current version holds is ever in the
-removal history of a quiescent state's last step, and the loop is settled (no released version is waiting). -/
-theorem eventual_delete_partial {S : State} {G : Env} {R : List Nat} (h : Reach S G R) :
-    S.released.lookup S.next = none ∧ S.abandoned = [] :=
-  ⟨(reach_inv h).2, (reach_inv h).1.ab⟩
+    (∀ f, f ∈ S.fileRef ↔ f ∈ G.F (G.n - 1)) ∧
+    (∀ f k, k < G.n → f ∈ G.F k → f ∉ G.F (G.n - 1) → R.count f = 1) := by
+  obtain ⟨hI, hs, hH⟩ := reach_inv h
+  have hq := quiescent_fileRef hI hs hn hnd hrel
+  refine ⟨hq, fun f k hk hfk hcur => ?_⟩
+  have hnr : S.next ∉ G.rel := by
+    intro h
+    have := hI.rld S.next
+    simp [h] at this
+    rw [hs] at this; cases this
+  have hge : G.n - 1 ≤ S.next := by
+    rcases Nat.lt_or_ge S.next (G.n - 1) with h | h
+    · exact absurd (hrel S.next (by omega)) hnr
+    · exact h
+  refine (hH f).1 ⟨⟨k, ?_, hfk⟩, ?_⟩
+  · by_cases hkn : k < S.next
+    · exact Or.inl hkn
+    · right; have := hI.nx; omega
+  · rw [List.count_eq_zero]; exact fun hm => hcur ((hq f).mp hm)
 
 /-! ## `NodupAdded` is needed -/
 
@@ -184,7 +196,7 @@ theorem reach_of_chain {S : State} {G G' : Env} {R : List Nat} {ms : List Msg} (
   induction hc generalizing S R with
   | nil G => exact ⟨S, [], rfl, by simpa using h⟩
   | cons hs _ ih =>
-    obtain ⟨S1, rm, h1, _, _⟩ := step_inv (reach_inv h).1 hs
+    obtain ⟨S1, rm, h1, _, _, _⟩ := step_inv (reach_inv h).1 (reach_inv h).2.2 hs
     obtain ⟨S2, R2, h2, h3⟩ := ih (Reach.step h hs h1)
     exact ⟨S2, rm ++ R2, by simp [run, h1, h2], by simpa [List.append_assoc] using h3⟩
 
@@ -236,7 +248,7 @@ example : sweep [4, 9] 12 11 [⟨.table, 4⟩, ⟨.table, 7⟩, ⟨.table, 9⟩,
 
 /-- The property theorems of C07 (for the audit). -/
 def theorems : List String :=
-  ["GoLevel.C07.no_premature_delete", "GoLevel.C07.eventual_delete", "GoLevel.C07.eventual_delete_partial",
+  ["GoLevel.C07.no_premature_delete", "GoLevel.C07.eventual_delete", "GoLevel.C07.removed_at_most_once",
    "GoLevel.C07.delta_once_needed", "GoLevel.C07.startup_sweep"]
 
 end GoLevel.C07
